@@ -19,5 +19,11 @@ CHECKS = {
   "note": "Trusted: byte comparison (header lines with the command line ignored, gz decompressed, aux/ ignored). Schedules are those the process pool produced under seeded delays, not all possible ones.",
   "technique": "differential runtime monitoring: schedule-perturbed and hash-seed-perturbed executions compared with a reference execution; schedule event log",
  },
+ "C07": {
+  "level": "fault_enumeration",
+  "text": "Fault enumeration at the level of file-system mutations: a counting monitor numbers every open-for-write / gzip-open-for-write / remove under the output directory of a deterministic -t 1 run; for each selected number n the run is killed (os._exit) immediately before mutation n, continued with --resume, and the final tree is compared with an uninterrupted run. Quick: every distinct call site (function, operation, file kind) of two configurations once plus random fill and 6 multi-process kills; thorough: every crash point of five configurations (single/multi chromosome, read-group table + --count_exons, --keep_tmp, annotation-free, gzipped outputs) plus 40 SIGKILLs of a -t 4 process group at worker mutations.",
+  "note": "Trusted: os._exit before the mutation models a kill (buffers of already-open files are lost, as with SIGKILL); crash points before .params is complete are out of scope; crashes between two mutations are represented by the following mutation point; multi-process kill points are sampled.",
+  "technique": "fault injection at counted file-system mutations (monkeypatched open/gzip.open/os.remove) + differential comparison with a clean run",
+ },
 }
 NOT_APPLICABLE = {}
